@@ -11,5 +11,5 @@ while [ $# -gt 0 ]; do
   shift
   wait
 done
-for p in C08 C16 C19; do one $p 16; done
+for p in C19 C16 C08; do one $p 16; done
 echo "=== thorough done"
